@@ -27,7 +27,8 @@ Inductive sobs :=
 | SoJoin (c f : nat) (n : option nat)                   (* Some n: returns after completion of call n *)
 | SoGet (c f : nat) (n : option nat) (v : option Z)
 | SoCheck (c f n : nat) (st : option fstate) (ab : bool)
-| SoPause (c : nat).
+| SoPause (c : nat)
+| SoDestroy (c f : nat) (n : option nat).               (* ~Future: returns after completion of call n *)
 
 (* what join() makes visible *)
 Definition sp_join (fn : Z -> Z) (x : sfut) : sfut :=
@@ -58,6 +59,10 @@ Definition spec_step (fn : Z -> Z) (fs : list sfut) (c : nat) (op : cop) : list 
       let x := nth f fs sfut_init in
       (fs, SoCheck c f (sp_serial x) (if sp_active x then None else sp_state x) (sp_ab x))
   | CPause => (fs, SoPause c)
+  | CDestroy f =>
+      let x := nth f fs sfut_init in
+      (upd f (sp_join fn x) fs, SoDestroy c f (if sp_active x then Some (sp_serial x) else None))
+  | CResume _ _ _ => (fs, SoPause c)
   end.
 
 Fixpoint spec_run (fn : Z -> Z) (fs : list sfut) (ops : list (nat * cop)) : list sobs :=
@@ -74,7 +79,10 @@ Fixpoint spec_run (fn : Z -> Z) (fs : list sfut) (ops : list (nat * cop)) : list
    blocked in a join of something queued behind them (the premise "do not wait on other futures"
    read for the client that has to call abort()). *)
 Definition cop_fut (op : cop) : option nat :=
-  match op with CStart f _ _ | CAbort f | CJoin f | CGet f | CCheck f => Some f | CPause => None end.
+  match op with
+  | CStart f _ _ | CAbort f | CJoin f | CGet f | CCheck f | CDestroy f => Some f
+  | CPause | CResume _ _ _ => None
+  end.
 
 Fixpoint valid_from (ncl : nat) (st : list (option nat * bool)) (ops : list (nat * cop)) : bool :=
   match ops with
@@ -93,7 +101,7 @@ Fixpoint valid_from (ncl : nat) (st : list (option nat * bool)) (ops : list (nat
               (if (work =? 3)%nat then (c =? 0)%nat && (length (filter (fun x => snd x) st) <? 2)%nat else true) &&
               valid_from ncl (upd f (Some c, (work =? 3)%nat) st) rest
           | CAbort _ => valid_from ncl (upd f (Some c, false) st) rest
-          | CJoin _ | CGet _ => negb w3 && valid_from ncl (upd f (Some c, w3) st) rest
+          | CJoin _ | CGet _ | CDestroy _ => negb w3 && valid_from ncl (upd f (Some c, w3) st) rest
           | _ => valid_from ncl (upd f (Some c, w3) st) rest
           end
       end
